@@ -23,7 +23,7 @@ SR = common_send.SR
 
 
 def r1(ctx):
-    b = ctx.fbody(name="send_request", self_adt=ENG, trait=SR)
+    b = ctx.fibody(name="send_request", self_adt=ENG, trait=SR)
     sends = [(bi, t, tm) for bi, t, tm in b.real_calls() if tm[1].endswith("Tx::send")]
     ok = len(sends) == 1
     ctx.check("Engine::send_request", ok, "exactly one delivery attempt", got=len(sends), key="one-send")
@@ -75,7 +75,7 @@ def r1(ctx):
     for d in fr:
         r = ctx.facts.bodies[d]
         if "UnrecoverableEngineError" in (r.get("impl_trait_ref") or ""):
-            conv[d] = render(ctx.body(d).return_term())
+            conv[d] = render(ctx.ibody(d).return_term())
     ctx.check("EngineError::from(UnrecoverableEngineError)", len(conv) == 1 and list(conv.values())[0].startswith("EngineError::Unrecoverable{0: "),
               "a missing execution link (find error) surfaces as an unrecoverable engine error", got=conv, key="fatal-conversion")
 
@@ -95,7 +95,7 @@ def _in_loop(b, bi):
 
 def r2(ctx):
     d = ctx.find(name="send_requests", self_adt=ENG, trait=SR)
-    b = ctx.body(d)
+    b = ctx.ibody(d)
     rt = b.return_term()
     ok = rt[0] == "agg" and rt[1].endswith("SendRequestsOutput::SendRequestsOutput")
     f = dict(zip(rt[2], rt[3])) if ok else {}
@@ -146,7 +146,7 @@ def r3(ctx):
 
 def r4(ctx):
     GA = "barter::engine::action::generate_algo_orders::GenerateAlgoOrders"
-    b = ctx.fbody(name="generate_algo_orders", self_adt=ENG, trait=GA)
+    b = ctx.fibody(name="generate_algo_orders", self_adt=ENG, trait=GA)
     calls = b.real_calls()
     chk = [tm for bi, t, tm in calls if tm[1].endswith("RiskManager::check")]
     ctx.check("Engine::generate_algo_orders", len(chk) == 1, "one risk check", got=len(chk), key="one-check")
@@ -166,8 +166,7 @@ def r4(ctx):
         idx = arg[2][0][2] if ok else None
         pat = None
         if ok:
-            cb, _ = mir.closure_body(ctx.facts, arg[2][1])
-            pat = render(cb.return_term())
+            pat = common.unary_result(ctx, arg[2][1])
         kind = "cancels" if any("RequestCancel" in a for a in t["f"]["args"]) else "opens"
         got[kind] = (idx, pat)
         for sub in mir.subterms(arg):
@@ -200,7 +199,7 @@ def r5(ctx):
     ds = [d for d in ctx.find(name="process", self_adt=ENG, trait=P, allow_many=True)]
     if len(ds) != 1:
         raise Exception("expected one Engine::process, got %r" % ds)
-    b = ctx.body(ds[0])
+    b = ctx.ibody(ds[0])
     calls = b.real_calls()
     GA = "barter::engine::action::generate_algo_orders::GenerateAlgoOrders"
     target = ctx.find(name="generate_algo_orders", self_adt=ENG, trait=GA)
@@ -296,7 +295,7 @@ def r6(ctx):
                 found.append((d, blk["i"], t["sp"], ty))
     owners = {}
     for d, bi, sp, ty in found:
-        b = ctx.body(d)
+        b = ctx.ibody(d)
         t = b.blocks[bi]["term"]
         owners.setdefault(mir.short(whomay.owner_fn(d)), []).append((sp, render(b.operand_term(t["args"][1]))))
     ok = set(owners) == {"Engine::send_request", "Engine::shutdown"}
@@ -308,7 +307,7 @@ def r6(ctx):
     ctx.floor("execution-link deliveries", len(found), 2)
     # the channel wrapper hands the item straight to the tokio sender
     UT = "barter_integration::channel::UnboundedTx"
-    ub = ctx.body(ctx.find(name="send", self_adt=UT, trait="barter_integration::channel::Tx"))
+    ub = ctx.ibody(ctx.find(name="send", self_adt=UT, trait="barter_integration::channel::Tx"))
     ctx.check("UnboundedTx::send", render(ub.return_term()) == "UnboundedSender::send(self.tx, Into::into(item))" and
               len(ub.real_calls()) == 2, "the link wrapper forwards exactly the given item to its channel, once, and returns the channel's verdict",
               got=render(ub.return_term()), key="wrapper")
@@ -316,17 +315,16 @@ def r6(ctx):
 
 def r7(ctx):
     MX = "barter::engine::execution_tx::MultiExchangeTxMap"
-    b = ctx.fbody(name="find", self_adt=MX, trait="barter::engine::execution_tx::ExecutionTxMap")
-    rt = b.return_term()
-    ok = rt[0] == "call" and rt[1].endswith("ok_or_else") and rt[2][0][0] == "call" and rt[2][0][1].endswith("and_then")
-    inner = rt[2][0] if ok else None
-    if ok:
-        ok = render(inner[2][0]) == "IndexMap::get_index(self.0, exchange.0)"
-        cb, _ = mir.closure_body(ctx.facts, inner[2][1])
-        ok = ok and render(cb.return_term()) == "$1.1"
+    b = ctx.fibody(name="find", self_adt=MX, trait="barter::engine::execution_tx::ExecutionTxMap")
+    tab = common.case_table(b)
+    slot = "IndexMap::get_index(self.0, ExchangeIndex::index(exchange))"
+    okk = [k for k, v in tab.items() if v == ["Result::Ok{0: %s.as:Some.0.1.as:Some.0}" % slot]]
+    errk = [k for k, v in tab.items() if len(v) == 1 and v[0].startswith("Result::Err{0: UnrecoverableEngineError::IndexError{0: IndexError::ExchangeIndex{")]
+    ok = len(tab) == 2 and okk == ["(%s is Some && %s.as:Some.0.1 is Some)" % (slot, slot)] and \
+        errk == ["(%s is None) || (%s is Some && %s.as:Some.0.1 is None)" % (slot, slot, slot)]
     ctx.check("MultiExchangeTxMap::find", bool(ok),
-              "Err when the exchange index is out of range OR the slot holds no transmitter (and_then(tx.as_ref()))",
-              got=render(rt)[:200], key="missing-link")
+              "Ok(the transmitter stored at the exchange's own index) iff the index is in range AND the slot holds one; Err otherwise",
+              got={k: [x[:100] for x in v] for k, v in tab.items()}, key="missing-link")
 
 
 def r8(ctx):
@@ -337,17 +335,13 @@ def r8(ctx):
     IFR = common_send.IFR
     for many, one in (("record_in_flight_cancels", "record_in_flight_cancel"), ("record_in_flight_opens", "record_in_flight_open")):
         ds = [d for d in ctx.find(name=many, trait=IFR, allow_many=True)]
-        okall = False
+        okall = bool(ds)
         got = []
         for d in ds:
-            b = ctx.body(d)
-            for bi, t, tm in b.real_calls():
-                got.append(render(tm)[:120])
-                if tm[1].endswith("Iterator::for_each") and render(tm[2][0]) == "requests":
-                    cb, _ = mir.closure_body(ctx.facts, tm[2][1]) if tm[2][1][0] == "agg" else (None, None)
-                    if cb is not None:
-                        inner = [x for _, _, x in cb.real_calls() if x[1].endswith("::" + one)]
-                        okall = len(inner) == 1 and render(inner[0][2][1]) == "$1"
+            vs = common.elementwise_views(ctx, d)
+            got.append([(v["source"], v["calls"]) for v in vs])
+            okall = okall and len(vs) == 1 and vs[0]["source"] == "requests" and \
+                [c for c in vs[0]["calls"]] == [("InFlightRequestRecorder::%s(self, $x)" % one, "true")]
         ctx.check("InFlightRequestRecorder::" + many, okall, "every sent request of the batch is recorded, one by one", got=got, key="each")
 
 
@@ -363,14 +357,14 @@ def r9(ctx):
             {"NoneOneOrMany::is_none(self.sent)", "NoneOneOrMany::is_none(self.errors)"},
     }
     for (adt, fn), w in want.items():
-        b = ctx.fbody(name=fn, self_adt=adt, trait="")
+        b = ctx.fibody(name=fn, self_adt=adt, trait="")
         got = common.conjunction_of(b)
         ctx.check("%s::%s" % (mir.short(adt).split("::")[-1], fn), got == w,
                   "the output counts as empty only if EVERY part is empty (otherwise Engine::process would drop a sent / failed / refused "
                   "request from its report)", got=sorted(got) if got else None, want=sorted(w), key="all-parts")
     # Engine::process: the algo output is dropped only when is_empty, otherwise attached (errors or output)
     P = "barter::engine::Processor"
-    b = ctx.body(ctx.find(name="process", self_adt=ENG, trait=P))
+    b = ctx.ibody(ctx.find(name="process", self_adt=ENG, trait=P))
     calls = b.real_calls()
     ie = [(bi, t, tm) for bi, t, tm in calls if mir.short(tm[1]) == "GenerateAlgoOrdersOutput::is_empty"]
     add = [(bi, t, tm) for bi, t, tm in calls if mir.short(tm[1]) in ("ProcessAudit::add_output", "ProcessAudit::add_errors")]
